@@ -77,6 +77,19 @@ func c17Encoders(c *run.C) {
 			return
 		}
 	}
+	if jv, isJSON := v.(interface {
+		SetEscapeHTML(bool)
+		SetExplicitRadixPoint(bool)
+		SetIgnoreInvalidFloat(bool)
+	}); isJSON && r.Bool() {
+		// the options of a used encoder are changed before the probe: it must
+		// then write what a new encoder with these options writes
+		o = codec.JSONOptsFromIndex(r.Intn(8) | 4)
+		jv.SetEscapeHTML(o.EscapeHTML)
+		jv.SetExplicitRadixPoint(o.ExplicitRadixPoint)
+		jv.SetIgnoreInvalidFloat(o.IgnoreInvalidFloat)
+		c.Observe("encoder_options_changed_before_probe", 1)
+	}
 	off := len(w.Buf)
 	var e1, e2 error
 	if !c.Guard(cd.Name+".encode-probe", func() { e1 = mon.Replay(probe, v, mon.ReplayOpts{}) }) {
